@@ -44,3 +44,18 @@ TRUSTED_COMMON = [
     "cfg evaluation fixed to x86_64, 64-bit BitBuffer, features with-alloc (core crate) / default (C shim)",
     "harness modules are appended to a per-run copy of the source file; no line of the real functions is altered",
 ]
+
+MANIFEST_NOTES = (
+    "Family: contract-based deductive verification of the real code. Every claimed property is decided by a named set of "
+    "component contracts (see evidence coverage.samples); compositions that neither Kani nor Verus can reach here "
+    "(whole decoder automaton runs, the three compressor loops) are listed under coverage.not_covered / assumptions in "
+    "each evidence file and in DESIGN.md §4. Two genuine defects found by the checks were repaired in /repo with fix: "
+    "commits (known_findings.txt)."
+)
+
+PROPERTY_META = {
+    "C20": dict(not_applicable=True, na_reason=(
+        "facts about program text and the trait solver (#![forbid(unsafe_code)], no_std builds, auto traits): no "
+        "pre/postcondition expresses them and neither Verus nor Kani decides them; the compiler itself would, which is a "
+        "different technique (DESIGN.md §4 C20)")),
+}
